@@ -186,7 +186,15 @@ CHECKS = {
         "broken / circular user modules) are issued to fresh interpreters "
         "and to a session model; value, error value, stdout, repetition of "
         "every failing command, final read-back of all variables, module "
-        "cache and load stack must agree.",
+        "cache and load stack must agree. Residue differential (no model): "
+        "sessions built from 26 defining commands (values, documented "
+        "functions, aliases, objects, classes, modules) are run with and "
+        "without 1-3 of 42 commands that fail before defining anything; all "
+        "other results and a snapshot of every session and base name (kind, "
+        "rendering, doc string), the module table, load stack, recursion "
+        "limit and cwd must be identical, a repeated failing command must "
+        "fail identically, doc strings must survive, and a second "
+        "interpreter that ran nothing must look as before.",
         "Trusted: the session model (about 100 lines); user modules on a "
         "scratch HOME; failed module loads may re-run top-level code.",
         "DESIGN.md section 5 C10",
